@@ -245,20 +245,10 @@ func check(st *stats, prop string, m proto.Message, desc string) {
 	fail := func(kind, f string, a ...any) {
 		st.res.Add(prop+"|"+kind+"|"+tname, fmt.Sprintf(f, a...)+"\n  message: "+tname+"{"+desc+"}", map[string]any{"type": tname, "fields": desc})
 	}
-	b1, err := proto.MarshalOptions{Deterministic: true}.Marshal(m)
-	if err != nil {
-		fail("reflect-marshal-error", "proto.Marshal: %v", err)
-		return
-	}
-	key := tname + ":" + string(b1)
-	if _, dup := st.seen[key]; !dup {
-		st.seen[key] = struct{}{}
-		if len(b1) > 0 {
-			st.res.Distinct++
-		}
-	}
-	st.types[tname]++
+	// the specialised encoder goes first: whatever an earlier encoding of this very object left behind
+	// (size caches) is what it finds
 	var b2 []byte
+	var err error
 	func() {
 		defer func() {
 			if p := recover(); p != nil {
@@ -278,6 +268,20 @@ func check(st *stats, prop string, m proto.Message, desc string) {
 	if n := vm.SizeVT(); n != len(b2) {
 		fail("size-mismatch", "SizeVT() = %d but MarshalVT wrote %d bytes", n, len(b2))
 	}
+	var b1 []byte
+	b1, err = proto.MarshalOptions{Deterministic: true}.Marshal(m)
+	if err != nil {
+		fail("reflect-marshal-error", "proto.Marshal: %v", err)
+		return
+	}
+	key := tname + ":" + string(b1)
+	if _, dup := st.seen[key]; !dup {
+		st.seen[key] = struct{}{}
+		if len(b1) > 0 {
+			st.res.Distinct++
+		}
+	}
+	st.types[tname]++
 	newMsg := func() vtMessage { return m.ProtoReflect().New().Interface().(vtMessage) }
 	// reflect bytes -> vt decoder
 	x := newMsg()
@@ -466,6 +470,19 @@ func main() {
 						check(st, f.Prop, m.Interface(), a.desc+", "+b.desc)
 					}
 				}
+				// the same object encoded, changed, encoded again (nothing remembered from the first
+				// encoding may leak into the second): small domains, both orders of growing and shrinking
+				for _, a := range small[i] {
+					for _, b := range small[j] {
+						m := mt.New()
+						a.set(m)
+						check(st, f.Prop, m.Interface(), a.desc)
+						b.set(m)
+						check(st, f.Prop, m.Interface(), a.desc+", encoded, then "+b.desc)
+						m.Clear(fds.Get(i))
+						check(st, f.Prop, m.Interface(), a.desc+", "+b.desc+", encoded, then "+string(fds.Get(i).Name())+" cleared")
+					}
+				}
 			}
 		}
 		// triples of fields over small domains
@@ -489,6 +506,18 @@ func main() {
 			}
 		}
 		check(st, f.Prop, allSet(mt, depth).Interface(), "all fields set")
+		// nested messages changed in place after the enclosing message was encoded by both codecs
+		for _, grow := range []bool{true, false} {
+			am := allSet(mt, depth)
+			check(st, f.Prop, am.Interface(), "all fields set")
+			if mutateNested(am, grow, 0) {
+				what := "shrunk"
+				if grow {
+					what = "grown"
+				}
+				check(st, f.Prop, am.Interface(), "all fields set, encoded, then every string inside nested messages "+what+" in place")
+			}
+		}
 		// length sweep: for every message-typed field, grow a string inside the nested message so that
 		// the nested encoding's size crosses the varint boundaries of its length prefix (127/128, 16383/16384)
 		for i := 0; i < fds.Len(); i++ {
@@ -527,4 +556,52 @@ func main() {
 	if f.Replay == "" {
 		res.Write(f)
 	}
+}
+
+// mutateNested changes, in place, the string fields of every message nested in m (directly, in
+// lists and in maps). Returns whether anything was changed.
+func mutateNested(m protoreflect.Message, grow bool, depth int) bool {
+	changed := false
+	var muts []func()
+	m.Range(func(fd protoreflect.FieldDescriptor, v protoreflect.Value) bool {
+		switch {
+		case fd.IsMap():
+			if fd.MapValue().Kind() == protoreflect.MessageKind {
+				v.Map().Range(func(_ protoreflect.MapKey, mv protoreflect.Value) bool {
+					if mutateNested(mv.Message(), grow, depth+1) {
+						changed = true
+					}
+					return true
+				})
+			}
+		case fd.IsList():
+			if fd.Kind() == protoreflect.MessageKind {
+				for i := 0; i < v.List().Len(); i++ {
+					if mutateNested(v.List().Get(i).Message(), grow, depth+1) {
+						changed = true
+					}
+				}
+			}
+		case fd.Kind() == protoreflect.MessageKind:
+			if mutateNested(v.Message(), grow, depth+1) {
+				changed = true
+			}
+		case fd.Kind() == protoreflect.StringKind && depth > 0:
+			fd := fd
+			old := v.String()
+			muts = append(muts, func() {
+				if grow {
+					m.Set(fd, protoreflect.ValueOfString(old+strings.Repeat("g", 150)))
+				} else {
+					m.Set(fd, protoreflect.ValueOfString(""))
+				}
+			})
+		}
+		return true
+	})
+	for _, f := range muts {
+		f()
+		changed = true
+	}
+	return changed
 }
